@@ -6,20 +6,34 @@ package transformations
 import (
 	"strings"
 	"unicode"
+	"unicode/utf8"
 )
 
 // removeWhitespace removes all whitespace characters from input.
 func removeWhitespace(data string) (string, bool, error) {
-	changed := false
-	transformedData := strings.Map(func(r rune) rune {
+	// The input is walked rune by rune but copied byte by byte: strings.Map would rewrite every
+	// byte that is not valid UTF-8 into U+FFFD, changing data that is no whitespace at all (and
+	// without reporting it as a change).
+	for i := 0; i < len(data); {
+		r, size := utf8.DecodeRuneInString(data[i:])
 		if unicode.IsSpace(r) {
-			// if the character is a space, drop it
-			changed = true
-			return -1
+			return doRemoveWhitespace(data, i), true, nil
 		}
-		// else keep it in the string
-		return r
-	}, data)
+		i += size
+	}
+	return data, false, nil
+}
 
-	return transformedData, changed, nil
+func doRemoveWhitespace(data string, pos int) string {
+	var sb strings.Builder
+	sb.Grow(len(data))
+	sb.WriteString(data[:pos])
+	for i := pos; i < len(data); {
+		r, size := utf8.DecodeRuneInString(data[i:])
+		if !unicode.IsSpace(r) {
+			sb.WriteString(data[i : i+size])
+		}
+		i += size
+	}
+	return sb.String()
 }
